@@ -334,3 +334,239 @@ Example C01_session_expired_refuted :
   = ([POk; POk; POk; POk], [7], [], [], [])
   /\ exs_run_at 1700003601000000000%Z (exs_pf :: exs_wire true) = ([POk; POk; POk; POk], [], [7], [], exs_log).
 Proof. exact exs_expired_refuted. Qed.
+
+From FluteV Require Import Proofs.C02RS Proofs.C02SessionRS Proofs.C01RS.
+(* ===== block: C01RS ===== *)
+(* ---------------- Reed-Solomon GF(2^8): FEC 5 (RS28) and FEC 129 (RS28US), Proofs/C01RS.v ----------------
+   The object-level composition theorem above, PROVED for the two Reed-Solomon schemes.
+   Sender: any configuration FileDesc::new accepts with FEC 5 or 129 (is_rs; filedesc_accepts: parity >= 1,
+   k + parity <= 256 for every block that exists), any window >= 1, any non-empty buffer content of the announced length,
+   either build profile, last transfer or not.  The parity shards of a block are those of the repair oracle
+   [rep fec sbn block_bytes k parity] of Model/BlockEnc.v, which gives at most [parity] shards (rep_len_ok; the premise
+   of C08_transfer_full with equality).  ALL packets of one uninterrupted transfer - source AND repair symbols,
+   interleaved by the window - are put on the wire by [to_apkt_rs]: FEC 5: ((sbn & 0xFFFFFF) << 8) | (esi & 0xFF),
+   codepoint 5 (alcrs28.rs); FEC 129: sbn u32, source block length (= k of the block, pkt.source_block_length) u16, esi
+   u16, codepoint 129 (alcrs28underspecified.rs); B flag = close flag; no EXT_FTI.
+   Receiver: a fresh object receiver with the FDT entry attached, whose OTI carries the sender's scheme, E, B and
+   parity (oti_matches_rs).  The decoder is the ORACLE e_fec of the environment; its hypothesis rs_oracle_mds (C02,
+   Proofs/C02RS.v: called for a block with at least k genuine symbols it returns the zero-padded block) is taken for
+   [rx_rep rep c content] = the receiver-side view of the SENDER's encoder: the repair symbol (sbn, esi) is the
+   (esi - k)-th parity shard [rep] produced for block sbn.  Memory: rs_mem_need oti L <= max_size_allocated, i.e. L
+   for FEC 5 and L rounded up to a whole number of symbols for FEC 129 [C01_rs129_clean_channel_limit_refuted];
+   at most 4097 blocks; E < 2^16; the other environment premises of the No-Code theorem.
+   Conclusion: as for No-Code.  In this in-order run the oracle is in fact never needed (every source symbol arrives:
+   the model reassembles the block itself); it is needed for the statements after earlier packets / late join (C16).
+   What had to agree between the two models and does (proved, not assumed):
+   - padding: the sender zero-pads the last source symbol of a block to E (Block::new_from_buffer / create_shards), the
+     receiver's notion of the genuine source symbol is symbol j of the object zero-padded to a whole number of
+     symbols: C01_rs_source_symbol_is_padded_slice;
+   - the source block length field of FEC 129 = k of the block = what the receiver's partition gives (sbl_okb);
+   - repair symbols get the ESIs k .. k + parity - 1, all below 256; block numbers fit 24 / 32 bits
+     (n <= max_source_blocks_number) - C01_sender_rs_exact, C01_wire_bridge_rs. *)
+Theorem C01_clean_channel_rs :
+  forall rep raptor_src c content oti E toi max fid files inst md5,
+  is_rs (c_fec c) = true -> filedesc_accepts c = true -> c_tlen c = lenN content -> 0 < c_tlen c ->
+  (1 <= c_window c)%nat -> rep_len_ok rep ->
+  c_e c < 65536 ->
+  oti_matches_rs c oti -> fdt_entry_for files inst toi oti (c_tlen c) md5 ->
+  writer_accepts E toi -> writes_succeed E toi -> md5_good E content md5 ->
+  rs_oracle_mds E oti content (rx_rep rep c content) toi ->
+  rs_mem_need oti (c_tlen c) <= max -> nb_blocks_of oti (c_tlen c) <= 4097 ->
+  let blocks := blocks_of_buffer rep raptor_src c content in
+  let ps := pkts_of (enc_run (S (S (total_shards blocks))) c [] (est_init blocks)) in
+  let (o, cx) := receive E fid files inst toi max (map (to_apkt_rs (c_fec c) toi) ps) in
+  r_state o = Completed
+  /\ ShapeDone content (toi, 0%nat) toi cx
+  /\ forall m, complete_exact content (m, calls_of (toi, 0%nat) (c_log cx)) = true
+               /\ P_C01_object m content 1 [(m, calls_of (toi, 0%nat) (c_log cx))] = true
+               /\ P_C02_object true content [(m, calls_of (toi, 0%nat) (c_log cx))] = true.
+Proof. exact rs_clean_channel_delivered. Qed.
+Print Assumptions C01_clean_channel_rs.
+
+(* the same after any genuine packets (source or repair symbols of the sender's encoder) without the close-object
+   flag, any order, any duplication: [delivered] is the conclusion above, [wire_pkts_rs] the list
+   map (to_apkt_rs (c_fec c) toi) ps above *)
+Theorem C01_clean_channel_rs_after_earlier_packets :
+  forall rep raptor_src c content oti E toi max fid files inst md5,
+  is_rs (c_fec c) = true -> filedesc_accepts c = true -> c_tlen c = lenN content -> 0 < c_tlen c ->
+  (1 <= c_window c)%nat -> rep_len_ok rep ->
+  c_e c < 65536 ->
+  oti_matches_rs c oti -> fdt_entry_for files inst toi oti (c_tlen c) md5 ->
+  writer_accepts E toi -> writes_succeed E toi -> md5_good E content md5 ->
+  rs_oracle_mds E oti content (rx_rep rep c content) toi ->
+  rs_mem_need oti (c_tlen c) <= max -> nb_blocks_of oti (c_tlen c) <= 4097 ->
+  forall pre, Forall (fun q => rs_genuine_pkt oti content (rx_rep rep c content) q = true) pre ->
+              Forall (fun q => a_close_obj q = false) pre ->
+  delivered E fid files inst toi max content (pre ++ wire_pkts_rs rep raptor_src c content toi).
+Proof. exact rs_prefix_then_transfer_delivered. Qed.
+Print Assumptions C01_clean_channel_rs_after_earlier_packets.
+
+(* the Reed-Solomon analogue of C01_sender_nocode_exact: what exactly the sender model puts in each packet
+   (P_C08_rs_exact: block of the partition, source block length = k, source symbol = the E-byte slice ZERO-PADDED to E,
+   repair symbol esi in k .. k + #shards - 1 = the shard esi - k of the oracle), every source symbol of every block
+   present, the close flag on the last packet only iff last transfer, no panic - whatever the build profile *)
+Theorem C01_sender_rs_exact : forall rep raptor_src c content,
+  is_rs (c_fec c) = true -> 0 < c_tlen c ->
+  filedesc_accepts c = true -> c_tlen c = lenN content -> (1 <= c_window c)%nat ->
+  let blocks := blocks_of_buffer rep raptor_src c content in
+  let outs := enc_run (S (S (total_shards blocks))) c [] (est_init blocks) in
+  let ps := pkts_of outs in
+  P_C08_rs_exact rep c content ps = true
+  /\ (let '(al, as_, nal, n) := block_partitioning (c_b c) (c_tlen c) (c_e c) in
+      forall s i, s < n -> i < nominal_syms al as_ nal s -> In (s, i) (map (fun p => (p_sbn p, p_esi p)) ps))
+  /\ flags_ok (c_closable c) ps
+  /\ no_panic outs.
+Proof. exact rs_transfer_exact. Qed.
+Print Assumptions C01_sender_rs_exact.
+
+(* sender and receiver agree on the padding of source symbols *)
+Theorem C01_rs_source_symbol_is_padded_slice : forall oti content j,
+  0 < ro_e oti -> 0 < lenN_ content -> j < div_ceil (lenN_ content) (ro_e oti) ->
+  psym oti content j = pad (N.to_nat (ro_e oti)) (sym_slice (ro_e oti) content j).
+Proof. exact psym_is_padded_slice. Qed.
+Print Assumptions C01_rs_source_symbol_is_padded_slice.
+
+(* any packet list satisfying the exact predicate is mapped by the wire bridge to packets that are genuine for the
+   receiver (w.r.t. the receiver-side view of the sender's encoder), with the same (sbn, esi) and close flags *)
+Theorem C01_wire_bridge_rs : forall rep c content oti toi al as_ nal n,
+  is_rs (c_fec c) = true -> filedesc_accepts c = true -> c_tlen c = lenN content -> 0 < c_tlen c ->
+  oti_matches_rs c oti -> rep_len_ok rep ->
+  block_partitioning (c_b c) (c_tlen c) (c_e c) = (al, as_, nal, n) ->
+  forall ps, P_C08_rs_exact rep c content ps = true ->
+  Forall (fun q => rs_genuine_pkt oti content (rx_rep rep c content) q = true) (map (to_apkt_rs (c_fec c) toi) ps)
+  /\ map (rs_pid oti) (map (to_apkt_rs (c_fec c) toi) ps) = map (fun p => (p_sbn p, p_esi p)) ps
+  /\ map a_close_obj (map (to_apkt_rs (c_fec c) toi) ps) = map p_close ps.
+Proof. exact bridge_all_rs. Qed.
+Print Assumptions C01_wire_bridge_rs.
+
+(* non-vacuity with the XOR toy code on both sides (xor_rep: one parity shard = XOR of the padded source symbols;
+   decoder xor_dec of Proofs/C02RS.v): the 5-byte object, E = 2, parity 1, two interleaved blocks, debug-profile
+   sender; FEC 5 (B = 2) and FEC 129 (B = 1): the packets, their wire image, the delivery computed through enc_run,
+   the bridge and receive; genuineness by computation; and the theorem applied (the oracle hypothesis holds for it) *)
+Example C01_example_wire_rs :
+  map (fun p => (p_sbn p, p_esi p, p_payload p, p_close p, p_k p, p_src p))
+      (transfer_pkts xor_rep no_rsrc (exr_cfg RS28 2 true) exr_content)
+  = [(0, 0, [1; 2], false, 2, true); (1, 0, [5; 0], false, 1, true); (0, 1, [3; 4], false, 2, true);
+     (1, 1, [5; 0], false, 1, false); (0, 2, [2; 6], true, 2, false)]
+  /\ map a_pidbytes (wire_pkts_rs xor_rep no_rsrc (exr_cfg RS28 2 true) exr_content 7)
+     = [[0; 0; 0; 0]; [0; 0; 1; 0]; [0; 0; 0; 1]; [0; 0; 1; 1]; [0; 0; 0; 2]]
+  /\ map a_pidbytes (wire_pkts_rs xor_rep no_rsrc (exr_cfg RS28US 1 false) exr_content 7)
+     = [[0; 0; 0; 0; 0; 1; 0; 0]; [0; 0; 0; 1; 0; 1; 0; 0]; [0; 0; 0; 0; 0; 1; 0; 1];
+        [0; 0; 0; 1; 0; 1; 0; 1]; [0; 0; 0; 2; 0; 1; 0; 0]; [0; 0; 0; 2; 0; 1; 0; 1]]
+  /\ summary 7 (receive env_xor 1 exr_files None 7 1000 (wire_pkts_rs xor_rep no_rsrc (exr_cfg RS28 2 true) exr_content 7))
+     = (Completed, [CallOpen true; CallWrite [1; 2; 3; 4] true; CallWrite [5] true; CallComplete])
+  /\ summary 7 (receive env_xor 1 exr_files None 7 1000 (wire_pkts_rs xor_rep no_rsrc (exr_cfg RS28 2 false) exr_content 7))
+     = (Completed, [CallOpen true; CallWrite [1; 2; 3; 4] true; CallWrite [5] true; CallComplete])
+  /\ summary 7 (receive env_xor 1 exu_files None 7 6 (wire_pkts_rs xor_rep no_rsrc (exr_cfg RS28US 1 true) exr_content 7))
+     = (Completed, [CallOpen true; CallWrite [1; 2] true; CallWrite [3; 4] true; CallWrite [5] true; CallComplete])
+  /\ forallb (rs_genuine_pkt exr_oti exr_content (rx_rep xor_rep (exr_cfg RS28 2 true) exr_content))
+             (wire_pkts_rs xor_rep no_rsrc (exr_cfg RS28 2 true) exr_content 7) = true
+  /\ forallb (rs_genuine_pkt exu_oti exr_content (rx_rep xor_rep (exr_cfg RS28US 1 true) exr_content))
+             (wire_pkts_rs xor_rep no_rsrc (exr_cfg RS28US 1 true) exr_content 7) = true.
+Proof. vm_compute. repeat split. Qed.
+
+Example C01_example_rs_by_theorem : forall closable,
+  delivered env_xor 1 exr_files None 7 1000 exr_content (wire_pkts_rs xor_rep no_rsrc (exr_cfg RS28 2 closable) exr_content 7)
+  /\ delivered env_xor 1 exu_files None 7 6 exr_content (wire_pkts_rs xor_rep no_rsrc (exr_cfg RS28US 1 closable) exr_content 7).
+Proof. intros closable. split; [exact (exr_clean_channel_by_theorem closable)|exact (exu_clean_channel_by_theorem closable)]. Qed.
+
+(* the memory premise is rs_mem_need, not the transfer length: FEC 129, 9 bytes, E = 2, B = 2, three interleaved
+   blocks, clean channel, emission order: Errored with max_size_allocated = 9, delivered with 10; FEC 5 delivered with 9
+   (the receiver accounts k * E per block from the source block length field of the payload id) *)
+Example C01_rs129_clean_channel_limit_refuted :
+  filedesc_accepts (ex9_cfg RS28US) = true /\ rs_mem_need (ex9_oti FRS28US) 9 = 10
+  /\ map (rs_pid (ex9_oti FRS28US)) (wire_pkts_rs xor_rep no_rsrc (ex9_cfg RS28US) ex9_content 7)
+     = [(0, 0); (1, 0); (2, 0); (0, 1); (1, 1); (2, 1); (0, 2); (1, 2)]
+  /\ summary 7 (receive env_xor 1 (ex9_files FRS28US) None 7 9 (wire_pkts_rs xor_rep no_rsrc (ex9_cfg RS28US) ex9_content 7))
+     = (Errored, [CallOpen true; CallError])
+  /\ summary 7 (receive env_xor 1 (ex9_files FRS28US) None 7 10 (wire_pkts_rs xor_rep no_rsrc (ex9_cfg RS28US) ex9_content 7))
+     = (Completed, [CallOpen true; CallWrite [1; 2; 3; 4] true; CallWrite [5; 6; 7; 8] true; CallWrite [9] true; CallComplete])
+  /\ summary 7 (receive env_xor 1 (ex9_files FRS28) None 7 9 (wire_pkts_rs xor_rep no_rsrc (ex9_cfg RS28) ex9_content 7))
+     = (Completed, [CallOpen true; CallWrite [1; 2; 3; 4] true; CallWrite [5; 6; 7; 8] true; CallWrite [9] true; CallComplete]).
+Proof. exact rs129_clean_channel_limit_refuted. Qed.
+
+(* ---------------- session level, a Reed-Solomon object in a No-Code session ----------------
+   As C01_session_clean_channel_nocode, for ONE accepted non-empty object sent with its own Reed-Solomon OTI
+   (TransferConfig.oti with FEC 5 or 129, no scheme-specific element); the session OTI stays No-Code, so the FDT instance
+   (the document the sender model publishes, in which the File element carries the object's FEC-OTI attributes incl.
+   FEC-OTI-Max-Number-of-Encoding-Symbols = B + parity) still travels as one No-Code packet.  [sender_ok_rs],
+   [receiver_ok_rs] (rs_mem_need <= max cache; the decoder oracle is MDS for the receiver-side view of the sender's
+   encoder), [session_meta_delivered_rs] (the instance [sess_inst_rs]: the entry's OTI is the Reed-Solomon OTI with the
+   sender's E, B, parity) are unfolded in C01_session_statements_rs.  [obj_wire_rs] = the wire image of one whole
+   transfer (source and repair symbols), with EXT_FTI on every packet or on none.  Conclusion as for No-Code:
+   session_delivered, the oracle reads back the instance, and the metadata flute's receiver computes from the parsed
+   document (FdtRecv.recv_meta) is what the sender was given - all ten fields, incl. the OTI in use. *)
+Theorem C01_session_clean_channel_rs :
+  forall rep raptor_src cfg complete now m content E rcfg nowr id sct,
+  sender_ok_rs cfg now m content -> doc_fits cfg complete now m -> rep_len_ok rep ->
+  receiver_ok_rs rep E rcfg nowr sct cfg now m content ->
+  forall (window : nat) (closable debug fti : bool), (1 <= window)%nat ->
+  let '(_, r, cx) := recv_run E fdt_oracle rcfg recv0
+                       (map (fun p => RvPush p nowr)
+                            (sess_fdt_pkt cfg complete now m id sct
+                             :: obj_wire_rs rep raptor_src cfg m window closable debug content fti)) ctx0 in
+  session_meta_delivered_rs cfg complete now m content rcfg r cx.
+Proof. exact rs_session_clean_channel. Qed.
+Print Assumptions C01_session_clean_channel_rs.
+
+Theorem C01_session_statements_rs : forall rep cfg complete now m content E rcfg nowr sct r cx,
+  (sender_ok_rs cfg now m content <->
+   fec_id (c_oti cfg) = 0 /\ oti_wf (c_oti cfg) /\ 0 < max_sbl (c_oti cfg)
+   /\ (fec_id (the_oti (c_oti cfg) m) = 5 \/ fec_id (the_oti (c_oti cfg) m) = 129)
+   /\ oti_wf (the_oti (c_oti cfg) m) /\ m_cenc m = 0
+   /\ filedesc_accepts (mk_ecfg (if fec_id (the_oti (c_oti cfg) m) =? 129 then RS28US else RS28)
+                                (esl (the_oti (c_oti cfg) m)) (max_sbl (the_oti (c_oti cfg) m))
+                                (parity (the_oti (c_oti cfg) m)) 1 false (FdtInst.m_tlen m) false) = true
+   /\ FdtInst.m_tlen m = lenN content /\ 0 < FdtInst.m_tlen m /\ m_toi m <> 0 /\ FdtInst.m_clen m < 18446744073709551616
+   /\ time_in_era now /\ spec_expires now (c_dur cfg) < 4294967296 /\ meta_ok cfg now m)
+  /\ (obj_roti_rs cfg m = mk_roti (match (if fec_id (the_oti (c_oti cfg) m) =? 129 then RS28US else RS28) with
+                                   | RS28US => FRS28US | _ => FRS28 end)
+                                  (esl (the_oti (c_oti cfg) m)) (max_sbl (the_oti (c_oti cfg) m))
+                                  (parity (the_oti (c_oti cfg) m)) None)
+  /\ (receiver_ok_rs rep E rcfg nowr sct cfg now m content <->
+      writer_accepts E (m_toi m) /\ writes_succeed E (m_toi m)
+      /\ md5_good E content (option_map bytes_of_str (FdtInst.m_md5 m))
+      /\ rs_oracle_mds E (obj_roti_rs cfg m) content
+           (rx_rep rep (mk_ecfg (if fec_id (the_oti (c_oti cfg) m) =? 129 then RS28US else RS28)
+                                (esl (the_oti (c_oti cfg) m)) (max_sbl (the_oti (c_oti cfg) m))
+                                (parity (the_oti (c_oti cfg) m)) 1 false (FdtInst.m_tlen m) false) content) (m_toi m)
+      /\ rs_mem_need (obj_roti_rs cfg m) (lenN_ content) <= cf_max_cache rcfg
+      /\ nb_blocks_of (obj_roti_rs cfg m) (lenN_ content) <= 4097
+      /\ (cf_exp_check rcfg = false
+          \/ (match sct with Some t => t | None => nowr end
+              <= Z.of_N ((spec_expires now (c_dur cfg) - 2208988800) * 1000000) * 1000)%Z))
+  /\ (session_meta_delivered_rs cfg complete now m content rcfg r cx <->
+      session_delivered rcfg (sess_inst_rs cfg now m) content (m_toi m) r cx
+      /\ Xml.parse_fdt (str_of_bytes (fdt_doc cfg complete now m)) = Some (get_fdt_instance cfg complete now [m])
+      /\ fdt_oracle (fdt_doc cfg complete now m) = Some (sess_inst_rs cfg now m)
+      /\ exists rm,
+           recv_meta b64_decode (get_fdt_instance cfg complete now [m]) (to_file_xml (used_oti cfg m) m now) = MOk rm
+           /\ P_C10_meta cfg false now m rm = true
+           /\ ometa_of_rmeta rm = ometa_given cfg now m
+           /\ P_C01_object (ometa_given cfg now m) content 1
+                           [(ometa_of_rmeta rm, calls_of (m_toi m, 0%nat) (c_log cx))] = true).
+Proof. exact rs_session_statements. Qed.
+Print Assumptions C01_session_statements_rs.
+
+(* non-vacuity: the session of C01_session_example (No-Code session OTI E = 1400 B = 64, real XML bytes), the 5-byte
+   object as TOI 7 with its own OTI FEC 5, E = 2, B = 2, parity 1, XOR toy code on both sides, MD5 check on: the
+   document fits, the oracle parses it to [sess_inst_rs] whose entry OTI is the receiver's exr_oti, FDT packet + the
+   five packets (3 source, 2 repair) of the transfer, last transfer without EXT_FTI / carousel with EXT_FTI: every
+   packet accepted, TOI 7 in rv_completed, the log is the delivery; and by the theorem *)
+Example C01_session_example_rs :
+  (lenN_ exsr_doc <=? 1400) = true
+  /\ fdt_oracle exsr_doc = Some (sess_inst_rs exs_cfg exs_now exsr_m)
+  /\ obj_roti_rs exs_cfg exsr_m = exr_oti
+  /\ map (rs_pid exr_oti) (exsr_wire false false) = [(0, 0); (1, 0); (0, 1); (1, 1); (0, 2)]
+  /\ exsr_run (exsr_pf :: exsr_wire true false) = ([POk; POk; POk; POk; POk; POk], [], [7], [], exs_log)
+  /\ exsr_run (exsr_pf :: exsr_wire false true) = ([POk; POk; POk; POk; POk; POk], [], [7], [], exs_log).
+Proof. vm_compute. repeat split. Qed.
+
+Example C01_session_example_rs_by_theorem : forall closable fti,
+  let '(_, r, cx) := recv_run exsr_env fdt_oracle exs_rcfg recv0
+                       (map (fun p => RvPush p exs_nowr)
+                            (sess_fdt_pkt exs_cfg false exs_now exsr_m 1 exs_sct
+                             :: obj_wire_rs xor_rep no_rsrc exs_cfg exsr_m 2 closable true exr_content fti)) ctx0 in
+  session_meta_delivered_rs exs_cfg false exs_now exsr_m exr_content exs_rcfg r cx.
+Proof. exact exsr_by_theorem. Qed.
+(* ===== end block: C01RS ===== *)
